@@ -1,7 +1,7 @@
 """C13 — callback registrations have exactly one owner and end when that owner does."""
 import itertools
 PROP = "C13"
-COQ_FILES = ["Machine.v", "World.v", "World_proofs.v"]
+COQ_FILES = ["Machine.v", "World.v", "World_proofs.v", "World_owner_proofs.v"]
 DRIVERS = [
     dict(name="life_verif32", src="life.cpp", defines=["LIFE_VERIF"], ops=["life32"]),
     dict(name="life_noop", src="life.cpp", defines=["LIFE_NOOP"], ops=["lifen"]),
@@ -41,4 +41,4 @@ RULE = ("histories on a pool of 8 (+170 filler) application functions and 3 owne
         "depth 3 (quick)/4 (thorough) over 28 operations after create, random to length 24; pools larger than the table (verif: 4 slots; rlbox_noop_sandbox: 64 slots, 65th registration). "
         "After every step: outcome, slot index issued, which function a guest call reaches.")
 TRUSTED = ["model coq/World.v hand-written; tied by differential correspondence of whole histories"]
-ASSUMPTIONS = ["abort is terminal", "PARTIAL: the unbounded owner/key/slot agreement invariant is not proved in Coq; exhaustive bounded histories + random decide it"]
+ASSUMPTIONS = ["abort is terminal", "the owner/key/slot agreement is proved for all histories without sandbox destruction; histories with destroy + re-create meet known finding D12 and are decided by the correspondence"]
